@@ -166,15 +166,12 @@ def families(tier, seed):
 
 
 def _twin_axis_special():
-    """mutant: Vector.__eq__ ignores the z component (an axis is treated specially)"""
-    from Geometry3D.utils.constant import get_eps
-
-    def eq(self, other):
-        return abs(self._v[0] - other._v[0]) < get_eps() and abs(self._v[1] - other._v[1]) < get_eps()
-    Vector.__eq__ = eq
+    """mutant: intersection results are nudged along +x only (an axis is treated specially: not covariant under axis permutations)"""
+    from .c01 import _wrap_public
+    _wrap_public('intersection', lambda a, b, r: Point(r.x + F(1, 100), r.y, r.z) if isinstance(r, Point) else r)
 
 
-TWINS = {'Vector.__eq__ ignores z': (r'^Line-Segment/', _twin_axis_special)}
+TWINS = {'point results nudged along +x': (r'^(Line|Segment|HalfLine)-(Plane|Line|Segment)/v\d/g[1-9]', _twin_axis_special)}
 
 META = dict(
     title='queries commute with lattice isometries and scaling',
